@@ -28,7 +28,7 @@ pub fn one(engine: &str, data: &[u8])
         }
         "wr16" => crate::wr16::WrEngine{ prop: "C16" }.eval_bytes(data, Tier::Thorough),
         "acc14" => crate::acc14::AccEngine.eval_bytes(data, Tier::Thorough),
-        "sys17" => crate::sys17::SysEngine.eval_bytes(data, Tier::Thorough),
+        "sys17" => crate::sys17::SysEngine{ prop: "C17" }.eval_bytes(data, Tier::Thorough),
         _ => return,
     };
     if out.known_finding.is_some() { return; }
